@@ -12,7 +12,7 @@ ASSUMPTIONS = ["base arguments < 4; positions and runs lie within max_len; unuse
 
 def run(F, rep):
     rep.engines.update(["E2-BV", "E1"])
-    lemmas.lmer_lemmas(F, rep)
+    rep.run(lemmas.lmer_lemmas, F, rep)
     structural.check_derives(F, rep, "C17.derive", "vmer::Lmer",
                              ["std::cmp::PartialEq", "std::cmp::Eq", "std::hash::Hash", "std::cmp::PartialOrd", "std::cmp::Ord"])
     vis = structural.field_vis(F, "vmer::Lmer")
